@@ -1,7 +1,8 @@
 CONSTANTS
   MaxD = 3
   Locked = TRUE
+  CanDisconnect = TRUE
   AllGroups = TRUE
 SPECIFICATION Spec
-INVARIANTS TypeOK FramesAtomic CompletedOnceAfterPending NothingForUnannounced HasNextFalseExactlyLast CounterIsOpen CounterNonNegative ZeroIsLast Reconstructs DeadNeverRuns
+INVARIANTS TypeOK FramesAtomic CompletedOnceAfterPending NothingForUnannounced HasNextFalseExactlyLast CounterIsOpen CounterNonNegative ZeroIsLast Reconstructs DeadNeverRuns NoFrameAfterDisconnect
 PROPERTIES Terminates
